@@ -54,7 +54,9 @@ def parseFamilyW (s : String) : Option Family :=
 where parseType (s : String) : Option MType :=
   match s with
   | "counter" => some .counter | "gauge" => some .gauge | "summary" => some .summary
-  | "untyped" => some .untyped | "histogram" => some .histogram | _ => none
+  | "untyped" => some .untyped | "histogram" => some .histogram
+  | "unset" => some .counter   -- the field was never written: proto2 default on read (MetricType::COUNTER, value 0)
+  | _ => none
 
 def showVal : MVal → String
   | .counter v => "c:" ++ f64Show v
